@@ -179,6 +179,10 @@ def unsplit_netloc(username, password, hostname, port):
     else:
         auth = None
 
+    # NOTE: SplitResult.hostname drops the brackets of IPv6 hosts
+    if hostname and ":" in hostname:
+        hostname = "[" + hostname + "]"
+
     if auth:
         hostname = auth + "@" + hostname
     if port:
